@@ -139,13 +139,18 @@ def fractional (f : Fmt) (rep fl : Int) : Res Int :=
   else pure rep
 
 /-- `to_rep(exp2m1_0to1<Rep, E>(frac))` -/
-def exp2m1 (f : Fmt) (cs : List Nat) (frac : Int) : Res Int :=
-  if f.exp ≥ 0 then pure 0
+def exp2m1 (f : Fmt) (cs : List Nat) (frac : Int) : Res TV :=
+  -- `from_rep<make_largest_ufraction<…>>(0)`: `from_rep` takes the representation type from its argument, an `int`
+  if f.exp ≥ 0 then pure (i32, 0)
   else do
     let U := f.urep
     let u := U.wrap frac                                     -- scaled<uRep, E>{x}
     let s ← scaleInt (f.exp + f.bits) 2 (U, u)               -- im{…}: scale<E − (−W)>
-    evalPoly U cs (U.wrap s.2)
+    let p ← evalPoly U cs (U.wrap s.2)
+    pure (U, p)
+
+/-- representation type of the value `exp2m1_0to1` returns -/
+def polyTy (f : Fmt) : IntTy := if f.exp ≥ 0 then i32 else f.urep
 
 /-- `fp::exp2<im>(x, floored)` followed by the conversion to the return type; result = rep of `exp2(x)` -/
 def exp2With (cs : List Nat) (f : Fmt) (rep : Int) : Res Int := do
@@ -153,7 +158,7 @@ def exp2With (cs : List Nat) (f : Fmt) (rep : Int) : Res Int := do
   let U := f.urep
   let fl ← floored f rep
   -- the arms of the conditional: `uRep{1}` and the sum below; common type by the usual conversions
-  let shT := promote U
+  let shT := promote (polyTy f)
   let oneT := promote R
   let sumT := usualArith shT oneT
   let C := usualArith U sumT
@@ -162,7 +167,7 @@ def exp2With (cs : List Nat) (f : Fmt) (rep : Int) : Res Int := do
     let frac ← fractional f rep fl
     let poly ← exp2m1 f cs frac
     let cnt ← cBin .sub (i32, (f.bits : Int) + f.exp) (R, fl)       -- −(−W) + E − floored
-    let sh ← cBin .shr (U, poly) cnt
+    let sh ← cBin .shr poly cnt
     let k ← cBin .sub (R, fl) (i32, f.exp)                           -- floored − E
     let one ← cBin .shl (R, 1) k
     let sum ← cBin .add sh one
